@@ -661,6 +661,8 @@ type Profile struct {
 	Undefined map[string][]string `json:"undefined,omitempty"`
 	// EmptyLevels lists levels to emit as an empty list even without validations.
 	EmptyLevels []string `json:"empty_levels,omitempty"`
+	// ListOrder, when set for a level, is the exact order of the names in that level's list.
+	ListOrder map[string][]string `json:"list_order,omitempty"`
 }
 
 // ToY builds the YAML tree in canonical key order.
@@ -679,6 +681,12 @@ func (p *Profile) ToY() *Y {
 		}
 		for _, u := range p.Undefined[lvl] {
 			seq.Items = append(seq.Items, YStr(u))
+		}
+		if order, ok := p.ListOrder[lvl]; ok && len(order) == len(seq.Items) {
+			seq = YSeq()
+			for _, name := range order {
+				seq.Items = append(seq.Items, YStr(name))
+			}
 		}
 		empty := false
 		for _, e := range p.EmptyLevels {
